@@ -30,24 +30,75 @@ DISTS = {
 }
 
 
+# different distributions / parameters per dimension (the per-dimension objects must not share their parameters)
+MIXED = {
+    "mix_normal_normal": ["normal_inf", "normal_far"],
+    "mix_normal_triangle": ["normal_box", "triangle_mid"],
+    "mix_uniform_normal": ["uniform01", "normal_inf"],
+    "mix_triangle_triangle": ["triangle_left", "triangle_right"],
+}
+DISTS_EXTRA = {"normal_far": (("Normal", 3.0, 0.5), -INF, INF)}
+
+
+def _spec(name, d):
+    """per-dimension list of (distribution, a, b)"""
+    if name in MIXED:
+        return [dict(DISTS, **DISTS_EXTRA)[n] for n in MIXED[name]][:d]
+    return [DISTS[name]] * d
+
+
+def _ref_cdf(distr, a, b):
+    """the DECLARED distribution, built independently of the library's per-dimension objects"""
+    import scipy.stats as st
+    if distr[0] == "Uniform":
+        return st.uniform(loc=a, scale=b - a).cdf
+    if distr[0] == "Triangle":
+        return st.triang(c=(distr[1] - a) / (b - a), loc=a, scale=b - a).cdf
+    return st.norm(loc=distr[1], scale=distr[2]).cdf
+
+
 def _uq(name, d=1, model=None):
     from sparseSpACE.GridOperation import UncertaintyQuantification
     from sparseSpACE.Function import FunctionLinear
-    distr, a, b = DISTS[name]
+    spec = _spec(name, d)
     f = model if model is not None else FunctionLinear([1.0] * d)
-    op = UncertaintyQuantification(f, [distr] * d, np.array([a] * d), np.array([b] * d))
-    return op, a, b
+    A, B = np.array([x[1] for x in spec], dtype=float), np.array([x[2] for x in spec], dtype=float)
+    op = UncertaintyQuantification(f, [x[0] for x in spec], A, B)
+    return op, A, B
 
 
 def _tree_case(c):
     from sparseSpACE.Grid import GlobalTrapezoidalGridWeighted, GlobalTrapezoidalGrid
     name, bd = c["dist"], c["boundary"]
-    op, a, b = _uq(name)
+    dim = c.get("dim", 0)                      # the dimension whose trees are enumerated (mixed configurations are 2-dimensional)
+    nd = 2 if name in MIXED else 1
+    op, A, B = _uq(name, nd)
+    a, b = float(A[dim]), float(B[dim])
     key = {"dist": name.split("_")[0], "boundary": bd}
-    g = GlobalTrapezoidalGridWeighted(np.array([a]), np.array([b]), op, boundary=bd)
-    D = op.distributions[0]
+    if name in MIXED:
+        key["mixed"] = True
+    g = GlobalTrapezoidalGridWeighted(A, B, op, boundary=bd)
+    spec = _spec(name, nd)
+
+    class D:                                   # reference: the declared distribution of this dimension (scipy), not the library's object
+        cdf = staticmethod(_ref_cdf(*spec[dim]))
+    # the library's own distribution object of this dimension must be the declared one
     fails = []
-    mid = lambda lo, hi: g.get_mid_point(lo, hi, 0)
+    for x in ([a, b] if np.isfinite(a) else []) + [spec[dim][0][1] if len(spec[dim][0]) > 1 else 0.5 * (a + b), 0.3, 1.7]:
+        if np.isfinite(x) and abs(float(op.distributions[dim].cdf(x)) - float(D.cdf(x))) > 1e-12:
+            fails.append(fail("distribution_is_the_declared_one", "dimension %d: cdf(%r) = %r, declared %r gives %r" % (dim, x, float(op.distributions[dim].cdf(x)), spec[dim][0], float(D.cdf(x))), key))
+            break
+    mid = lambda lo, hi: g.get_mid_point(lo, hi, dim)
+    other = [[float(A[1 - dim]), float(B[1 - dim])], [0, 0]] if nd == 2 else None
+
+    def set_grid(pts, lv):
+        if nd == 1:
+            g.set_grid([pts], [lv])
+        else:
+            po = other[0]                       # the other dimension carries its end points and one (weighted) midpoint
+            P, L = [po[0], g.get_mid_point(po[0], po[1], 1 - dim), po[1]], [0, 1, 0]
+            args = ([pts, P], [lv, L]) if dim == 0 else ([P, pts], [L, lv])
+            g.set_grid(*args)
     if c["shape"][0] == "depth":
         T = trees.all_trees_depth(c["shape"][1], a, b, mid)
     else:   # chains towards a tail
@@ -85,8 +136,8 @@ def _tree_case(c):
             if abs(l - r) > 1e-10:
                 fails.append(fail("midpoint_halves_probability", "interval [%r,%r]: mid %r, left mass %r right mass %r" % (x1, x2, m, l, r), key))
                 break
-        g.set_grid([pts], [lv])
-        w = np.array(g.weights[0], dtype=float)
+        set_grid(pts, lv)
+        w = np.array(g.weights[dim], dtype=float)
         if np.any(w < 0):
             fails.append(fail("weights_nonnegative", "points %r: %r" % (pts, w.tolist()), key))
         s = float(np.sum(w))
@@ -117,7 +168,7 @@ def _moment_case(case):
     from sparseSpACE.ErrorCalculator import ErrorCalculatorSingleDimVolumeGuided
     c, history = case["config"], case["history"]
     name, bd, d = c["dist"], c["boundary"], c["d"]
-    distr, a, b = DISTS[name]
+    spec = _spec(name, d)
     maps = [(2.0, 0.0), (-3.0, 1.0), (0.5, -7.0)]
     key = {"dist": name.split("_")[0], "boundary": bd}
 
@@ -125,12 +176,12 @@ def _moment_case(case):
         v = _base(x)
         return [v] + [cc * v + ee for cc, ee in maps] + [4.2]
     model = CustomFunction(comps, output_length=5)
-    A, B = np.array([a] * d), np.array([b] * d)
-    op = UncertaintyQuantification(model, [distr] * d, A, B)
+    A, B = np.array([x[1] for x in spec], dtype=float), np.array([x[2] for x in spec], dtype=float)
+    op = UncertaintyQuantification(model, [x[0] for x in spec], A, B)
     grid = GlobalTrapezoidalGridWeighted(A, B, op, boundary=bd)
     op.set_grid(grid)
     op.set_expectation_variance_Function()
-    cfg = dict(c, a=[a] * d, b=[b] * d, lmin=1, lmax=2, version=6)
+    cfg = dict(c, a=[float(x) for x in A], b=[float(x) for x in B], lmin=1, lmax=2, version=6)
     if c.get("estimator") == "real":
         r = dw.build(cfg, [], None, None, estimator=ErrorCalculatorSingleDimVolumeGuided(), grid=grid, operation=op, perform=False,
                      sa_kwargs={"norm": 2, "grid_surplusses": grid})
@@ -151,8 +202,15 @@ def _moment_case(case):
     E, V = E2, V2
     # a finite box around a normal distribution carries slightly less than mass 1 (the library does not truncate): the laws hold
     # up to that deficit (2e-9 for mu+-6sigma); it is 0 for the bounded distributions and for infinite support
-    D0 = op.distributions[0]
-    deficit = abs(1.0 - float(D0.cdf(b) - D0.cdf(a)) ** d)
+    mass = 1.0
+    for k in range(d):
+        cdf = _ref_cdf(*spec[k])
+        mass *= float(cdf(B[k]) - cdf(A[k]))
+        # the per-dimension distribution objects of the operation are the declared ones
+        for x in (0.3, 1.7):
+            if abs(float(op.distributions[k].cdf(x)) - float(cdf(x))) > 1e-12:
+                fails.append(fail("distribution_is_the_declared_one", "dimension %d: cdf(%r) = %r, declared %r gives %r" % (k, x, float(op.distributions[k].cdf(x)), spec[k][0], float(cdf(x))), key))
+    deficit = abs(1.0 - mass)
     rt = 1e-11 + 4 * deficit
     for i, (cc, ee) in enumerate(maps):
         sc = max(1.0, abs(E[0]) * abs(cc) + abs(ee))
@@ -190,6 +248,13 @@ def main(ctx):
             cases.append({"config": {"kind": "tree", "dist": name, "boundary": bd, "shape": ["depth", 3 if q else 4]}})
             for side in ("left", "right"):
                 cases.append({"config": {"kind": "tree", "dist": name, "boundary": bd, "shape": ["chain", side, 6 if q else 9]}})
+    for name in MIXED:
+        for bd in (True, False):
+            if bd and any(not np.isfinite(_spec(name, 2)[k][1]) for k in range(2)):
+                continue
+            for dim in (0, 1):
+                cases.append({"config": {"kind": "tree", "dist": name, "boundary": bd, "dim": dim, "shape": ["depth", 3]}})
+                cases.append({"config": {"kind": "tree", "dist": name, "boundary": bd, "dim": dim, "shape": ["chain", "right", 5]}})
     ctx.determinism_probe(cases[0])
     for case, res in zip(cases, ctx.map(cases, chunksize=1)):
         ctx.absorb(case, res, group="trees_" + case["config"]["dist"])
@@ -198,13 +263,16 @@ def main(ctx):
     # (b)
     for name, bd, d, D, s in (("uniform", True, 2, 2, 1 if q else 2), ("triangle_mid", True, 2, 2, 1), ("normal_inf", False, 2, 2, 1),
                               ("uniform", False, 2, 2, 1), ("triangle_left", False, 1, 3, 2), ("normal_box", True, 1, 3, 2),
-                              ("triangle_right", True, 2, 1 if q else 2, 1)):
+                              ("triangle_right", True, 2, 1 if q else 2, 1),
+                              ("mix_normal_normal", False, 2, 2, 1), ("mix_normal_triangle", True, 2, 1 if q else 2, 1),
+                              ("mix_uniform_normal", False, 2, 1 if q else 2, 1), ("mix_triangle_triangle", True, 2, 1 if q else 2, 1)):
         cfg = {"kind": "moments", "dist": name, "boundary": bd, "d": d, "s": s, "rebalancing": True}
         tag = "moments_%s_bd%d_d%d_D%d_s%d" % (name, bd, d, D, s)
         ctx.bounds[tag] = core.bfs(ctx, cfg, D, tag=tag)
     real = [{"config": {"kind": "moments", "dist": name, "boundary": bd, "d": 2, "estimator": "real", "max_evaluations": mx, "rebalancing": True},
              "history": []}
-            for (name, bd) in (("uniform", True), ("triangle_mid", True), ("normal_inf", False), ("uniform", False), ("normal_box", True))
+            for (name, bd) in (("uniform", True), ("triangle_mid", True), ("normal_inf", False), ("uniform", False), ("normal_box", True),
+                               ("mix_normal_normal", False), ("mix_normal_triangle", True))
             for mx in ((40, 120) if q else (40, 120, 300))]
     for case, res in zip(real, ctx.map(real, chunksize=1)):
         ctx.absorb(case, res, state_key=("real", core.config_key(case["config"])), group="moments_default_estimator")
